@@ -23,6 +23,16 @@ pub(in crate::sql) fn preprocess(
     pipeline: Vec<Transform>,
     ctx: &mut Context,
 ) -> Result<Vec<SqlTransform>> {
+    #[cfg(feature = "verif")]
+    let (distinct, union, except, intersect) = {
+        use traced_stage as tr;
+        (
+            |p, c: &mut Context| tr("distinct", distinct, p, c),
+            |p, c: &mut Context| tr("union", union, p, c),
+            |p, c: &mut Context| tr("except", except, p, c),
+            |p, c: &mut Context| tr("intersect", intersect, p, c),
+        )
+    };
     Ok(pipeline)
         .and_then(normalize)
         .and_then(|p| wrap(p, ctx))
@@ -183,14 +193,6 @@ pub(in crate::sql) fn distinct(
             }
         }
     }
-    #[cfg(feature = "verif")]
-    crate::sql::verif_hooks::trace_event(serde_json::json!({
-        "event": "distinct",
-        "input": pipeline,
-        "output": res,
-        "select_columns": ctx.anchor.determine_select_columns(&pipeline),
-        "supports_distinct_on": ctx.dialect.supports_distinct_on(),
-    }));
     Ok(res)
 }
 
@@ -652,4 +654,56 @@ impl RqFold for Normalizer {
 
         Ok(expr)
     }
+}
+
+/// Brackets one stage of `preprocess` (distinct / union / except / intersect): the pipeline handed in, what the stage
+/// returned, and everything of the context the stage reads (instance columns, the columns the pipeline ends with, which
+/// columns are wildcards, the dialect flags).
+#[cfg(feature = "verif")]
+fn traced_stage(
+    stage: &str,
+    f: fn(Vec<SqlTransform>, &mut Context) -> Result<Vec<SqlTransform>>,
+    pipeline: Vec<SqlTransform>,
+    ctx: &mut Context,
+) -> Result<Vec<SqlTransform>> {
+    let recording = crate::sql::verif_hooks::trace_recording();
+    if !recording {
+        return f(pipeline, ctx);
+    }
+    let input = serde_json::to_value(&pipeline).unwrap_or_default();
+    let select_columns = ctx.anchor.determine_select_columns(&pipeline);
+    let mut instances = crate::sql::verif_hooks::instances_of(&ctx.anchor, &pipeline);
+    let res = f(pipeline, ctx);
+    if let (Ok(out), Some(map)) = (&res, instances.as_object_mut()) {
+        if let serde_json::Value::Object(more) = crate::sql::verif_hooks::instances_of(&ctx.anchor, out) {
+            map.extend(more);
+        }
+    }
+    let mut wildcards: Vec<_> = ctx
+        .anchor
+        .column_decls
+        .iter()
+        .filter(|(_, d)| {
+            matches!(
+                d,
+                super::context::ColumnDecl::RelationColumn(_, _, rq::RelationColumn::Wildcard)
+            )
+        })
+        .map(|(c, _)| c.get())
+        .collect();
+    wildcards.sort();
+    crate::sql::verif_hooks::trace_event(serde_json::json!({
+        "event": "preprocess_stage",
+        "stage": stage,
+        "input": input,
+        "output": res.as_ref().ok(),
+        "error": res.as_ref().err().map(|e| format!("{e:?}")),
+        "select_columns": select_columns,
+        "instances": instances,
+        "wildcards": wildcards,
+        "supports_distinct_on": ctx.dialect.supports_distinct_on(),
+        "except_all": ctx.dialect.except_all(),
+        "intersect_all": ctx.dialect.intersect_all(),
+    }));
+    res
 }
